@@ -37,6 +37,48 @@ Theorem C13_repetition_independent :
 Proof. exact run_calls_app. Qed.
 Print Assumptions C13_repetition_independent.
 
+(* ---------- histories that also re-configure the object: WithByteOrder between the reads ---------- *)
+(* WithByteOrder stores what it is given: the last call wins for EVERY value, 0 included (0 is not
+   "keep the current order"), and neither the payload nor the window is touched *)
+Theorem C13_with_byte_order_last_call_wins :
+  forall r a b, with_byte_order (with_byte_order r a) b = with_byte_order r b /\
+    r_order (with_byte_order r b) = b.
+Proof. intros r a b. split; [exact (with_byte_order_last r a b)|exact (with_byte_order_order r b)]. Qed.
+Print Assumptions C13_with_byte_order_last_call_wins.
+Theorem C13_with_byte_order_keeps_payload :
+  forall r bo, r_data (with_byte_order r bo) = r_data r /\ r_start (with_byte_order r bo) = r_start r /\
+    r_end (with_byte_order r bo) = r_end r.
+Proof. exact with_byte_order_keeps. Qed.
+Print Assumptions C13_with_byte_order_keeps_payload.
+
+(* any history of reads and WithByteOrder calls on ONE object: every read returns what it returns
+   on a fresh copy of the object configured with the LAST order set before it (or the order the
+   object started with) -- in particular not what an earlier caller had configured --, and at the
+   end payload and window are unchanged and the order is the last one set *)
+Theorem C13_histories_with_reconfiguration :
+  forall os r,
+    run_ops r os = (fresh_ops r (r_order r) os, with_byte_order r (last_order (r_order r) os)).
+Proof. exact run_ops_pure. Qed.
+Print Assumptions C13_histories_with_reconfiguration.
+Theorem C13_payload_unchanged_after_any_history :
+  forall r os,
+    r_data (snd (run_ops r os)) = r_data r /\ r_start (snd (run_ops r os)) = r_start r /\
+      r_end (snd (run_ops r os)) = r_end r /\ r_order (snd (run_ops r os)) = last_order (r_order r) os.
+Proof. exact run_ops_payload. Qed.
+Print Assumptions C13_payload_unchanged_after_any_history.
+
+(* non-vacuity: order 6 (LittleEndian|LowWordFirst) set by an earlier caller, then 0: the read after
+   WithByteOrder(0) is decoded with order 0 (big endian, high word first, characters in wire
+   order), not with 6 and not with the library default 9 (which would swap the characters) *)
+Example C13_reconfigured_to_zero :
+  exists r, new_registers (exact [0x41; 0x42; 0x43; 0x44]) 10 = Ok r /\
+    fst (run_ops r [OpRead AUint32 10; OpRead (AString 4) 10; OpOrder 6; OpRead AUint32 10; OpOrder 0;
+                    OpRead AUint32 10; OpRead (AString 4) 10; OpRead (AUint32BO 0) 10]) =
+      [Ok (VInt 0x41424344); Ok (VBytes [0x42; 0x41; 0x44; 0x43]); Ok (VInt 0x42414443);
+       Ok (VInt 0x41424344); Ok (VBytes [0x41; 0x42; 0x43; 0x44]); Ok (VInt 0x41424344)] /\
+         r_order (snd (run_ops r [OpOrder 6; OpRead AUint32 10; OpOrder 0])) = 0.
+Proof. eexists. split; [reflexivity|]. split; vm_compute; reflexivity. Qed.
+
 (* ---------- non-vacuity: the history on which the tree as pinned failed (D11) ---------- *)
 (* String(0,4) twice on "ABCD" (default order has BigEndian: bytes are swapped per register) used to
    give "BADC" and then "ABCD"; now both calls give "BADC" and the payload still reads "ABCD" *)
